@@ -30,6 +30,7 @@ type ZoneSpec struct {
 	KeyGen      int      // key generation: another value gives the zone other keys (and so another DS)
 	ExtraNSHost string   // the last NS host is named outside the zone (no glue) while the others keep glue: a partially glued referral
 	NSHost      string   // single NS host name outside the zone (glueless delegation); its A record is planted in the zone that holds it
+	NoGlueFor   []string // in-zone NS hosts the parent's referral carries no glue for (the zone itself still publishes their address)
 	Owners      map[string][]uint16
 	Targets     map[string]string
 	TTL         uint32
@@ -191,6 +192,12 @@ func Build(specs []ZoneSpec) *World {
 				p.Owners[apex][dns.TypeDS] = true
 			}
 			p.Children[apex] = z
+			for _, h := range sp.NoGlueFor {
+				if z.NoGlue == nil {
+					z.NoGlue = map[string]bool{}
+				}
+				z.NoGlue[strings.ToLower(dns.Fqdn(h))] = true
+			}
 			for _, h := range z.NSHosts {
 				if vfmodel.IsSubdomain(h, apex) {
 					p.Glue[h] = true
